@@ -14,6 +14,9 @@ extern "C" {
 
 using namespace vf;
 
+// guarded hook in /repo/src/fitter/nnls.c (-DPHOTOSPLINE_VERIF): a block solver left its loop at the iteration limit
+extern "C" int photospline_verif_nnls_cap_hit;
+
 namespace {
 
 struct Sys { int n; std::vector<double> A, b; std::vector<double> M; int mrows = 0; std::vector<double> yls; std::string cls; bool constructed = false; std::vector<double> x0; };
@@ -147,8 +150,15 @@ CaseResult body(Chooser& ch, Stats* st, bool small) {
   if (which == 4) { for (double v : s.yls) ynorm = std::max<LD>(ynorm, fabs(v)); for (double v : s.M) mnorm = std::max<LD>(mnorm, fabs(v)); }
   // solve
   cholmod_common c; cholmod_l_start(&c);
+  photospline_verif_nnls_cap_hit = 0;
   std::vector<double> x = run_solver(which, s, &c);
   cholmod_l_finish(&c);
+  // Known findings C11-*-iteration-cap: the block solvers can cycle and stop at their iteration limit with a
+  // non-optimal (block/block_updown: even infeasible) vector.  Such solves are excluded and counted.
+  if (photospline_verif_nnls_cap_hit && exclude_known()) {
+    if (st) { st->excluded_known++; st->label(std::string("known:iteration_cap_exhausted:") + kSolverNames[which]); }
+    return r;
+  }
   if ((int)x.size() != n) { r.fail = std::string(kSolverNames[which]) + " returned no solution"; return r; }
   // tolerances tied to the solver's stated tolerance
   double stated = which == 0 ? (double)n * DBL_EPSILON * 1e5 : (which <= 2 ? 1e-6 : 0.0);
